@@ -351,6 +351,11 @@ func (x *Exec) canInline(fr *Frame, callee *ssa.Function) bool {
 	if !inRepo(callee) {
 		return false
 	}
+	// never inline across modules: the root module compiles against module-cache copies of the
+	// sub-modules, so only the working-tree package itself is "the code that runs" here
+	if pi := x.vc.uni.pkgOf(callee); pi == nil || !pi.Local {
+		return false
+	}
 	for _, f := range x.inlineStack {
 		if f == callee {
 			return false
@@ -560,6 +565,18 @@ func (x *Exec) contractCall(fr *Frame, st *State, callee *ssa.Function, fc *Func
 	}
 	for _, en := range fc.Ensures {
 		if len(gvars) > 0 && (ceMentions(en.Expr, fc.GhostVars) || ceMentions(en.Expr, []Param{{Name: "where"}})) {
+			// quantified over the callee's logical variables: only on request (keeps queries quantifier-free)
+			wanted := false
+			if fr.top.fc != nil {
+				for _, im := range fr.top.fc.Imports {
+					if im == name+"["+en.Tag+"]" || im == name {
+						wanted = true
+					}
+				}
+			}
+			if !wanted {
+				continue
+			}
 			x.vc.sideStack = append(x.vc.sideStack, nil)
 			body := post.evalBool(en.Expr)
 			side := x.vc.sideStack[len(x.vc.sideStack)-1]
